@@ -167,3 +167,21 @@ Inductive aequal (s : vm) : aval -> aval -> Prop :=
 | aeq_str : forall u v t,
     tget (strs (st s)) u = Some t -> tget (strs (st s)) v = Some t ->
     aequal s (ALoc (LStr u)) (ALoc (LStr v)).
+
+(* finite plain data (no procedures, no unspecified values), with a bound on the number
+   of nodes: the domain of equal? in the property (acyclic data) *)
+Inductive adatum (s : vm) : aval -> nat -> Prop :=
+| ad_imm : forall v n,
+    match v with VBool _ | VChar _ | VNil | VNum _ | VSym _ => True | _ => False end ->
+    adatum s (AImm v) n
+| ad_str : forall u t n, tget (strs (st s)) u = Some t -> adatum s (ALoc (LStr u)) n
+| ad_pair : forall p x d n,
+    a_pair (abs s) p = Some (x, d) -> adatum s x n -> adatum s d n ->
+    adatum s (ALoc (LPair p)) (S n)
+| ad_vec : forall u xs n,
+    a_vec (abs s) u = Some xs -> Forall (fun x => adatum s x n) xs ->
+    adatum s (ALoc (LVec u)) (S n).
+
+(* symbols are interned (C18's symtab_inv): one cell per name *)
+Definition sym_interned (s : vm) : Prop :=
+  forall p q t, heap_get (hp s) p = Ok (VSym t) -> heap_get (hp s) q = Ok (VSym t) -> p = q.
